@@ -387,6 +387,15 @@ func randomLists(lists, entries, probes int) {
 		for i := 0; i < probes; i++ {
 			ps = append(ps, randName(names))
 		}
+		// names as long as a name can be, made of octets that need escaping in the text form (the regexp
+		// entries are matched against the text form)
+		for _, fill := range []byte{0x01, 0xfe, '.', '\\'} {
+			var ln name
+			for _, l := range []int{63, 63, 63, 59 - rng.Intn(6)} {
+				ln = append(ln, bytes.Repeat([]byte{fill}, l))
+			}
+			ps = append(ps, ln)
+		}
 		nfiles := 1 + rng.Intn(3)
 		per := (len(es) + nfiles - 1) / nfiles
 		for f := 0; f < nfiles; f++ {
